@@ -167,3 +167,4 @@ import models_str      # noqa  (registers)
 import models_iter     # noqa
 import models_std      # noqa
 import models_fmt      # noqa
+import models_regex    # noqa
